@@ -487,11 +487,12 @@ Lemma si_eq ln r :
   si ln r =
   let r1 := skip_blank r in
   match num_slot r1 with
-  | (w, _, s3) =>
+  | (w, s2n, s3) =>
       match str_slot r1 with
       | (None, s4) => ([], inr (BadEntry ln w s3 s4))
       | (Some v, s2) =>
-          let it := {| it_line := ln; it_str := v; it_word := w; it_numeric := at_sep s3; it_rest := s3 |} in
+          let it := {| it_line := ln; it_str := v; it_word := w; it_numeric := at_sep s3;
+                       it_after := s2n; it_rest := s3 |} in
           match s2 with
           | c :: r' => if c =? COMMA then let (its, e) := si ln r' in (it :: its, e) else ([it], inl s2)
           | [] => ([it], inl [])
@@ -624,10 +625,10 @@ Proof. rewrite ia_eq. unfold look. change (at_end (COMMA :: r')) with false. cbv
 (* the first entry reachable from a position, as READ finds it *)
 Lemma ia_step ln s it its e :
   ia ln s = (it :: its, e) ->
-  exists c r s2 s2n,
+  exists c r s2,
     look ln s = Ok (it_line it, c :: r) /\ (c =? data_tk_DATA) || (c =? COMMA) = true /\
     str_slot (skip_blank r) = (Some (it_str it), s2) /\
-    num_slot (skip_blank r) = (it_word it, s2n, it_rest it) /\
+    num_slot (skip_blank r) = (it_word it, it_after it, it_rest it) /\
     it_numeric it = at_sep (it_rest it) /\
     ia (it_line it) s2 = (its, e).
 Proof.
@@ -639,17 +640,17 @@ Proof.
   destruct (str_slot (skip_blank r)) as [[v|] s2] eqn:ES; [|discriminate].
   destruct s2 as [|c2 r'].
   - destruct (ia ln' []) as [more e0] eqn:EI. inversion H; subst. simpl.
-    exists c, r, [], s2n. repeat split; auto.
+    exists c, r, []. repeat split; auto.
   - destruct (c2 =? COMMA) eqn:EC.
     + apply Z.eqb_eq in EC. subst c2.
       destruct (si ln' r') as [its1 [s'|e1]] eqn:E1.
       * destruct (ia ln' s') as [more e0] eqn:EI. inversion H; subst. simpl.
-        exists c, r, (COMMA :: r'), s2n. repeat split; auto.
+        exists c, r, (COMMA :: r'). repeat split; auto.
         rewrite ia_comma, E1, EI. reflexivity.
-      * inversion H; subst. simpl. exists c, r, (COMMA :: r'), s2n. repeat split; auto.
+      * inversion H; subst. simpl. exists c, r, (COMMA :: r'). repeat split; auto.
         rewrite ia_comma, E1. reflexivity.
     + destruct (ia ln' (c2 :: r')) as [more e0] eqn:EI. inversion H; subst. simpl.
-      exists c, r, (c2 :: r'), s2n. repeat split; auto.
+      exists c, r, (c2 :: r'). repeat split; auto.
 Qed.
 
 Lemma ia_nil_end ln s :
@@ -695,7 +696,7 @@ Section Machine.
         | c :: r =>
             if (c =? data_tk_DATA) || (c =? COMMA) then
               let r1 := skip_blank r in
-              if tgt =? 0 then
+              if is_str tgt then
                 match str_slot r1 with
                 | (Some v, s2) => lift_unit (setvar tgt (VStr v)) (cur - 1) (Done (VStr v) (pos_of p s2))
                 | (None, s2) => Fail data_STX (pos_of p s2 - 1) None
@@ -724,16 +725,16 @@ Section Machine.
   Lemma inv_start p : Inv p 0 (-1) (fst (data_items p)) (snd (data_items p)).
   Proof. unfold Inv. change (seek p 0) with p. change (data_items p) with (ia (-1) p). now destruct (ia (-1) p). Qed.
 
-  Lemma read_str_step p cur dp ln it its e :
-    Inv p dp ln (it :: its) e ->
-    exists dp', read_one numok setvar p cur dp 0
-                = lift_unit (setvar 0 (VStr (it_str it))) (cur - 1) (Done (VStr (it_str it)) dp')
+  Lemma read_str_step p cur dp ln it its e tgt :
+    Inv p dp ln (it :: its) e -> is_str tgt = true ->
+    exists dp', read_one numok setvar p cur dp tgt
+                = lift_unit (setvar tgt (VStr (it_str it))) (cur - 1) (Done (VStr (it_str it)) dp')
                 /\ Inv p dp' (it_line it) its e.
   Proof.
-    unfold Inv. intros H. apply ia_step in H as [c [r [s2 [s2n [HL [HT [HS [HN [Hnum HI]]]]]]]]].
+    unfold Inv. intros H Ht. apply ia_step in H as [c [r [s2 [HL [HT [HS [HN [Hnum HI]]]]]]]].
     exists (pos_of p s2). rewrite read_one_eq.
     destruct (look_stream _ (-1) _ _ _ HL) as [l2 HL2]. rewrite HL2, HT. cbv zeta.
-    change (0 =? 0) with true. cbv iota. rewrite HS. split; [reflexivity|].
+    rewrite Ht, HS. split; [reflexivity|].
     rewrite seek_pos; [exact HI|].
     apply str_slot_sfx in HS. apply look_sfx in HL.
     eapply sfx_trans; [exact HS|]. eapply sfx_trans; [apply skip_blank_sfx|].
@@ -741,18 +742,18 @@ Section Machine.
   Qed.
 
   Lemma read_num_step p cur dp ln it its e tgt :
-    Inv p dp ln (it :: its) e -> tgt <> 0 -> it_numeric it = true ->
-    exists q dp', read_one numok setvar p cur dp tgt
-                  = lift_unit (numok (it_word it)) q
+    Inv p dp ln (it :: its) e -> is_str tgt = false -> it_numeric it = true ->
+    exists dp', read_one numok setvar p cur dp tgt
+                  = lift_unit (numok (it_word it)) (pos_of p (it_after it) - 1)
                       (lift_unit (setvar tgt (VNum (it_word it))) (cur - 1) (Done (VNum (it_word it)) dp'))
                   /\ Inv p dp' (it_line it) its e.
   Proof.
-    unfold Inv. intros H Ht Hn. apply ia_step in H as [c [r [s2 [s2n [HL [HT [HS [HN [Hnum HI]]]]]]]]].
+    unfold Inv. intros H Ht Hn. apply ia_step in H as [c [r [s2 [HL [HT [HS [HN [Hnum HI]]]]]]]].
     rewrite Hn in Hnum. symmetry in Hnum.
     destruct (num_str_agree _ _ _ _ HN Hnum) as [v Hv]. rewrite HS in Hv. inversion Hv; subst s2.
-    exists (pos_of p s2n - 1), (pos_of p (it_rest it)). rewrite read_one_eq.
+    exists (pos_of p (it_rest it)). rewrite read_one_eq.
     destruct (look_stream _ (-1) _ _ _ HL) as [l2 HL2]. rewrite HL2, HT. cbv zeta.
-    apply Z.eqb_neq in Ht. rewrite Ht, HN, Hnum. split; [reflexivity|].
+    rewrite Ht, HN, Hnum. split; [reflexivity|].
     rewrite seek_pos; [exact HI|].
     apply str_slot_sfx in HS. apply look_sfx in HL.
     eapply sfx_trans; [exact HS|]. eapply sfx_trans; [apply skip_blank_sfx|].
@@ -760,17 +761,17 @@ Section Machine.
   Qed.
 
   Lemma read_num_bad p cur dp ln it its e tgt :
-    Inv p dp ln (it :: its) e -> tgt <> 0 -> it_numeric it = false ->
-    exists q, read_one numok setvar p cur dp tgt
-              = lift_unit (numok (it_word it)) q
+    Inv p dp ln (it :: its) e -> is_str tgt = false -> it_numeric it = false ->
+    read_one numok setvar p cur dp tgt
+              = lift_unit (numok (it_word it)) (pos_of p (it_after it) - 1)
                   (lift_unit (setvar tgt (VNum (it_word it))) (cur - 1)
                      (Fail data_STX (pos_of p (it_rest it) - 1) (Some (VNum (it_word it))))).
   Proof.
-    unfold Inv. intros H Ht Hn. apply ia_step in H as [c [r [s2 [s2n [HL [HT [HS [HN [Hnum HI]]]]]]]]].
+    unfold Inv. intros H Ht Hn. apply ia_step in H as [c [r [s2 [HL [HT [HS [HN [Hnum HI]]]]]]]].
     rewrite Hn in Hnum. symmetry in Hnum.
-    exists (pos_of p s2n - 1). rewrite read_one_eq.
+    rewrite read_one_eq.
     destruct (look_stream _ (-1) _ _ _ HL) as [l2 HL2]. rewrite HL2, HT. cbv zeta.
-    apply Z.eqb_neq in Ht. rewrite Ht, HN, Hnum. reflexivity.
+    rewrite Ht, HN, Hnum. reflexivity.
   Qed.
 
   Lemma read_exhausted p cur dp ln tgt :
@@ -783,17 +784,17 @@ Section Machine.
 
   Lemma read_bad_entry p cur dp ln l w nrest srest tgt :
     Inv p dp ln [] (BadEntry l w nrest srest) ->
-    (tgt = 0 -> read_one numok setvar p cur dp tgt = Fail data_STX (pos_of p srest - 1) None) /\
-    (tgt <> 0 -> exists q, read_one numok setvar p cur dp tgt
+    (is_str tgt = true -> read_one numok setvar p cur dp tgt = Fail data_STX (pos_of p srest - 1) None) /\
+    (is_str tgt = false -> exists q, read_one numok setvar p cur dp tgt
                            = lift_unit (numok w) q
                                (lift_unit (setvar tgt (VNum w)) (cur - 1)
                                   (Fail data_STX (pos_of p nrest - 1) (Some (VNum w))))).
   Proof.
     unfold Inv. intros H. apply ia_nil_bad in H as [c [r [s2n [HL [HT [HS HN]]]]]].
     destruct (look_stream _ (-1) _ _ _ HL) as [l2 HL2]. split; intros Ht.
-    - subst tgt. rewrite read_one_eq, HL2, HT. cbv zeta. change (0 =? 0) with true. cbv iota. now rewrite HS.
+    - rewrite read_one_eq, HL2, HT. cbv zeta. rewrite Ht. now rewrite HS.
     - exists (pos_of p s2n - 1). rewrite read_one_eq, HL2, HT. cbv zeta.
-      apply Z.eqb_neq in Ht. rewrite Ht, HN. now rewrite (str_bad_not_numeric _ _ _ _ _ HS HN).
+      rewrite Ht, HN. now rewrite (str_bad_not_numeric _ _ _ _ _ HS HN).
   Qed.
 
   (* with conversions and assignments that succeed *)
@@ -804,11 +805,11 @@ Section Machine.
     Inv p dp ln (it :: its) e -> readable tgt it = true ->
     exists dp', read_one numok setvar p cur dp tgt = Done (value_for tgt it) dp' /\ Inv p dp' (it_line it) its e.
   Proof.
-    intros H Hr. unfold readable, value_for in *. destruct (tgt =? 0) eqn:Et.
-    - apply Z.eqb_eq in Et. subst tgt. destruct (read_str_step p cur dp ln it its e H) as [dp' [H1 H2]].
+    intros H Hr. unfold readable, value_for in *. destruct (is_str tgt) eqn:Et.
+    - destruct (read_str_step p cur dp ln it its e tgt H Et) as [dp' [H1 H2]].
       exists dp'. rewrite H1, setvar_ok. auto.
-    - apply Z.eqb_neq in Et. simpl in Hr.
-      destruct (read_num_step p cur dp ln it its e tgt H Et Hr) as [q [dp' [H1 H2]]].
+    - simpl in Hr.
+      destruct (read_num_step p cur dp ln it its e tgt H Et Hr) as [dp' [H1 H2]].
       exists dp'. rewrite H1, numok_ok, setvar_ok. auto.
   Qed.
 
@@ -816,8 +817,8 @@ Section Machine.
     Inv p dp ln (it :: its) e -> readable tgt it = false ->
     read_one numok setvar p cur dp tgt = Fail data_STX (pos_of p (it_rest it) - 1) (Some (VNum (it_word it))).
   Proof.
-    intros H Hr. unfold readable in Hr. apply orb_false_iff in Hr as [Et Hn]. apply Z.eqb_neq in Et.
-    destruct (read_num_bad p cur dp ln it its e tgt H Et Hn) as [q H1]. rewrite H1, numok_ok, setvar_ok. reflexivity.
+    intros H Hr. unfold readable in Hr. apply orb_false_iff in Hr as [Et Hn].
+    rewrite (read_num_bad p cur dp ln it its e tgt H Et Hn), numok_ok, setvar_ok. reflexivity.
   Qed.
 
   (* READ v1, ..., vn over the next n entries *)
@@ -846,9 +847,9 @@ Section Machine.
     - intros HF. destruct its as [|it its].
       + split; [reflexivity|]. destruct e as [|l w a b]; [reflexivity|].
         destruct (read_bad_entry p cur dp ln l w a b tgt H) as [B1 B2].
-        destruct (Z.eq_dec tgt 0) as [E|E].
-        * rewrite (B1 E) in HF. discriminate.
-        * destruct (B2 E) as [q B3]. rewrite B3, numok_ok, setvar_ok in HF. discriminate.
+        destruct (is_str tgt) eqn:E.
+        * rewrite (B1 eq_refl) in HF. discriminate.
+        * destruct (B2 eq_refl) as [q B3]. rewrite B3, numok_ok, setvar_ok in HF. discriminate.
       + destruct (readable tgt it) eqn:ER.
         * destruct (read_step_ok p cur dp ln it its e tgt H ER) as [dp' [H1 _]]. rewrite H1 in HF. discriminate.
         * rewrite (read_step_syntax p cur dp ln it its e tgt H ER) in HF. discriminate.
@@ -1087,12 +1088,40 @@ Lemma enc_mixed_app (pre w b post y : list Z) :
   (pre ++ w ++ QUOTE :: b ++ QUOTE :: post) ++ y = pre ++ w ++ QUOTE :: b ++ QUOTE :: post ++ y.
 Proof. rewrite <- !app_assoc. simpl. rewrite <- app_assoc. reflexivity. Qed.
 
+Lemma read_string_open b x :
+  str_body_ok b = true -> read_string (QUOTE :: b ++ 0 :: x) = (QUOTE :: b, 0 :: x).
+Proof.
+  intros Hb. unfold read_string. change (QUOTE =? QUOTE) with true. cbv iota.
+  rewrite read_to_app_nostop by (apply str_body_nostop; exact Hb).
+  rewrite read_to_stop by reflexivity. simpl. now rewrite app_nil_r.
+Qed.
+
+Lemma strip_quote_open b : str_body_ok b = true -> strip [QUOTE] (QUOTE :: b) = b.
+Proof.
+  intros Hb. destruct b as [|c b]; [reflexivity|].
+  assert (Hq : forall d, In d (c :: b) -> memz d [QUOTE] = false).
+  { intros d Hd. unfold str_body_ok in Hb. rewrite forallb_forall in Hb. specialize (Hb d Hd).
+    apply andb_true_iff in Hb as [H1 _]. apply negb_true_iff in H1. unfold memz. simpl. now rewrite H1. }
+  change (strip [QUOTE] (QUOTE :: c :: b)) with (strip [QUOTE] (c :: b)).
+  rewrite <- (app_nil_r (c :: b)) at 1.
+  apply strip_core; [apply Hq; left; reflexivity | | reflexivity].
+  apply Hq. destruct (@exists_last Z (c :: b)) as [l' [a E]]; [discriminate|]. rewrite E, last_last.
+  apply in_or_app. right. left. reflexivity.
+Qed.
+
+Lemma enc_open_app (pre b y : list Z) : (pre ++ QUOTE :: b) ++ y = pre ++ QUOTE :: b ++ y.
+Proof. now rewrite <- app_assoc. Qed.
+
+Lemma enc_mixedopen_app (pre w b y : list Z) : (pre ++ w ++ QUOTE :: b) ++ y = pre ++ w ++ QUOTE :: b ++ y.
+Proof. now rewrite <- !app_assoc. Qed.
+
 Lemma str_slot_entry e c x :
-  entry_ok e = true -> sepc c ->
+  entry_ok e = true -> sepc c -> (entry_open e = true -> c = 0) ->
   str_slot (skip_blank (enc_entry e ++ c :: x)) = (Some (entry_value e), c :: x).
 Proof.
-  intros He Hc. pose proof (sepc_special _ Hc) as Hsp. pose proof (sepc_nonblank _ Hc) as Hnb.
-  destruct e as [pre w post | pre b post | pre w b post]; simpl in He; simpl enc_entry; simpl entry_value.
+  intros He Hc Hopen. pose proof (sepc_special _ Hc) as Hsp. pose proof (sepc_nonblank _ Hc) as Hnb.
+  destruct e as [pre w post | pre b post | pre w b post | pre b | pre w b];
+    simpl in He; simpl enc_entry; simpl entry_value.
   - apply andb_true_iff in He as [He Hends]. apply andb_true_iff in He as [He Hw].
     apply andb_true_iff in He as [Hpre Hpost].
     rewrite enc_plain_app, skip_blank_app_blank by exact Hpre.
@@ -1124,6 +1153,21 @@ Proof.
     rewrite read_string_closed by exact Hb.
     rewrite skip_blank_app_blank by exact Hpost. rewrite skip_blank_nonblank by exact Hnb.
     rewrite (sepc_at_sep _ _ Hc). reflexivity.
+  - rewrite (Hopen eq_refl) in *. apply andb_true_iff in He as [Hpre Hb].
+    rewrite enc_open_app, skip_blank_app_blank by exact Hpre.
+    rewrite skip_blank_nonblank by reflexivity.
+    unfold str_slot. rewrite read_to_stop by reflexivity. change (QUOTE =? QUOTE) with true. cbv iota.
+    rewrite read_string_open by exact Hb. simpl skip_blank. simpl at_sep. cbv iota.
+    now rewrite strip_quote_open.
+  - rewrite (Hopen eq_refl) in *. apply andb_true_iff in He as [He Hd]. apply andb_true_iff in He as [He Hb].
+    apply andb_true_iff in He as [Hpre Hw].
+    destruct w as [|d w]; [discriminate|]. apply negb_true_iff in Hd.
+    rewrite enc_mixedopen_app, skip_blank_app_blank by exact Hpre. simpl app.
+    rewrite skip_blank_nonblank by exact Hd.
+    change (d :: w ++ QUOTE :: b ++ 0 :: x) with ((d :: w) ++ QUOTE :: b ++ 0 :: x).
+    unfold str_slot. rewrite read_to_word; [|exact Hw | reflexivity].
+    change (QUOTE =? QUOTE) with true. cbv iota.
+    rewrite read_string_open by exact Hb. simpl skip_blank. simpl at_sep. cbv iota. reflexivity.
 Qed.
 
 (* --- entries read as numbers --- *)
@@ -1220,19 +1264,20 @@ Proof.
 Qed.
 
 Lemma num_view_entry e c x w s2n s3 it :
-  entry_ok e = true -> sepc c ->
+  entry_ok e = true -> sepc c -> (entry_open e = true -> c = 0) ->
   num_slot (skip_blank (enc_entry e ++ c :: x)) = (w, s2n, s3) ->
   it_word it = w -> it_numeric it = at_sep s3 -> num_view e it.
 Proof.
-  intros He Hc HN Hw Hnum.
+  intros He Hc Hopen HN Hw Hnum.
   pose proof (sepc_special _ Hc) as Hsp. pose proof (sepc_nonblank _ Hc) as Hnb.
   assert (Hquote : forall A, In QUOTE A -> skip_blank (enc_entry e ++ c :: x) = A ++ c :: x -> it_numeric it = false).
   { intros A HA HE. rewrite Hnum. destruct (at_sep s3) eqn:Es; [|reflexivity]. exfalso.
-    destruct (num_str_agree _ _ _ _ HN Es) as [v Hv]. rewrite (str_slot_entry e c x He Hc) in Hv.
+    destruct (num_str_agree _ _ _ _ HN Es) as [v Hv]. rewrite (str_slot_entry e c x He Hc Hopen) in Hv.
     inversion Hv; subst s3. apply num_slot_split in HN as [pre [Hpre Hns]].
     rewrite HE in Hpre. apply app_inv_tail in Hpre. subst A.
     unfold no_special in Hns. rewrite forallb_forall in Hns. specialize (Hns _ HA). discriminate. }
-  destruct e as [pre w0 post | pre b post | pre w0 b post]; simpl in He; simpl enc_entry in *; simpl num_view.
+  destruct e as [pre w0 post | pre b post | pre w0 b post | pre b | pre w0 b];
+    simpl in He; simpl enc_entry in *; simpl num_view.
   - apply andb_true_iff in He as [He Hends]. apply andb_true_iff in He as [He Hw0].
     apply andb_true_iff in He as [Hpre Hpost].
     rewrite enc_plain_app, skip_blank_app_blank in HN by exact Hpre.
@@ -1267,6 +1312,16 @@ Proof.
     apply (Hquote ((d :: w0) ++ QUOTE :: b ++ QUOTE :: post)); [apply in_or_app; right; left; reflexivity|].
     rewrite enc_mixed_app, skip_blank_app_blank by exact Hpre. simpl app.
     rewrite skip_blank_nonblank by exact Hd. rewrite <- !app_assoc. simpl. rewrite <- !app_assoc. reflexivity.
+  - apply andb_true_iff in He as [Hpre Hb].
+    apply (Hquote (QUOTE :: b)); [left; reflexivity|].
+    rewrite enc_open_app, skip_blank_app_blank by exact Hpre.
+    rewrite skip_blank_nonblank by reflexivity. reflexivity.
+  - apply andb_true_iff in He as [He Hd]. apply andb_true_iff in He as [He Hb].
+    apply andb_true_iff in He as [Hpre Hw0].
+    destruct w0 as [|d w0]; [discriminate|]. apply negb_true_iff in Hd.
+    apply (Hquote ((d :: w0) ++ QUOTE :: b)); [apply in_or_app; right; left; reflexivity|].
+    rewrite enc_mixedopen_app, skip_blank_app_blank by exact Hpre. simpl app.
+    rewrite skip_blank_nonblank by exact Hd. rewrite <- !app_assoc. reflexivity.
 Qed.
 
 (* --- the entries of a DATA statement --- *)
@@ -1274,63 +1329,80 @@ Qed.
 Lemma join_cons2 sep (a b : list Z) r : join sep (a :: b :: r) = a ++ sep :: join sep (b :: r).
 Proof. reflexivity. Qed.
 
-Lemma si_entries : forall es n c x,
-  es <> [] -> forallb entry_ok es = true -> c = 0 \/ c = 58 ->
+Lemma si_entries : forall es last n c x,
+  entries_ok last es = true -> c = 0 \/ c = 58 -> (last = true -> c = 0) ->
   exists its, si n (join COMMA (map enc_entry es) ++ c :: x) = (its, inl (c :: x)) /\
               Forall2 item_rel (map (fun e => (n, e)) es) its.
 Proof.
-  induction es as [|e es IH]; intros n c x Hne Hok Hc; [congruence|].
-  simpl in Hok. apply andb_true_iff in Hok as [He Hes].
+  induction es as [|e es IH]; intros last n c x Hok Hc Hlast; [discriminate|].
   destruct es as [|e2 es].
-  - simpl join. rewrite si_eq. cbv zeta.
+  - simpl in Hok. apply andb_true_iff in Hok as [He Hop].
+    assert (Hopen : entry_open e = true -> c = 0).
+    { intros Ho. rewrite Ho in Hop. simpl in Hop. auto. }
+    simpl join. rewrite si_eq. cbv zeta.
     destruct (num_slot (skip_blank (enc_entry e ++ c :: x))) as [[w s2n] s3] eqn:EN.
     assert (Hs : sepc c) by (unfold sepc; tauto).
-    rewrite (str_slot_entry e c x He Hs).
+    rewrite (str_slot_entry e c x He Hs Hopen).
     assert (c =? COMMA = false) as -> by (destruct Hc as [-> | ->]; reflexivity).
     eexists. split; [reflexivity|]. constructor; [|constructor].
     split; [reflexivity|]. split; [reflexivity|]. simpl snd.
-    eapply num_view_entry; [exact He | exact Hs | exact EN | reflexivity | reflexivity].
-  - change (map enc_entry (e :: e2 :: es)) with (enc_entry e :: enc_entry e2 :: map enc_entry es).
+    eapply num_view_entry; [exact He | exact Hs | exact Hopen | exact EN | reflexivity | reflexivity].
+  - change (entries_ok last (e :: e2 :: es)) with (entry_ok e && negb (entry_open e) && entries_ok last (e2 :: es)) in Hok.
+    apply andb_true_iff in Hok as [Hok Hes]. apply andb_true_iff in Hok as [He Hcl]. apply negb_true_iff in Hcl.
+    assert (Hopen : entry_open e = true -> COMMA = 0) by (rewrite Hcl; discriminate).
+    change (map enc_entry (e :: e2 :: es)) with (enc_entry e :: enc_entry e2 :: map enc_entry es).
     rewrite join_cons2.
     change (enc_entry e2 :: map enc_entry es) with (map enc_entry (e2 :: es)).
-    destruct (IH n c x ltac:(discriminate) Hes Hc) as [its [H1 H2]].
+    destruct (IH last n c x Hes Hc Hlast) as [its [H1 H2]].
     remember (join COMMA (map enc_entry (e2 :: es))) as J eqn:EJ.
     rewrite <- app_assoc. change ((COMMA :: J) ++ c :: x) with (COMMA :: J ++ c :: x).
     rewrite si_eq. cbv zeta.
     destruct (num_slot (skip_blank (enc_entry e ++ COMMA :: J ++ c :: x))) as [[w s2n] s3] eqn:EN.
     assert (Hs : sepc COMMA) by (left; reflexivity).
-    rewrite (str_slot_entry e COMMA _ He Hs). change (COMMA =? COMMA) with true. cbv iota.
+    rewrite (str_slot_entry e COMMA _ He Hs Hopen). change (COMMA =? COMMA) with true. cbv iota.
     rewrite H1. eexists. split; [reflexivity|]. constructor; [|exact H2].
     split; [reflexivity|]. split; [reflexivity|]. simpl snd.
-    eapply num_view_entry; [exact He | exact Hs | exact EN | reflexivity | reflexivity].
+    eapply num_view_entry; [exact He | exact Hs | exact Hopen | exact EN | reflexivity | reflexivity].
 Qed.
 
 (* --- where the numeric reading of the entries of a statement stops --- *)
 
+Lemma num_slot_after r1 w s2n s3 :
+  num_slot r1 = (w, s2n, s3) -> (length s3 <= length s2n <= length r1)%nat.
+Proof.
+  unfold num_slot. destruct (read_number r1) as [w0 s0] eqn:E. intros H; inversion H; subst.
+  apply read_number_split in E as [pre [-> _]]. pose proof (sfx_length _ _ (skip_blank_sfx s2n)).
+  rewrite app_length. lia.
+Qed.
+
+(* the two positions at which a numeric READ of an entry can fail lie between lo and hi bytes before the end *)
+Definition within (lo hi : nat) (it : item) : Prop :=
+  (lo <= length (it_rest it) <= hi /\ lo <= length (it_after it) <= hi)%nat.
+
 Lemma stmt_items_rest_bounds : forall f ln r its s', (length r < f)%nat ->
   stmt_items f ln r = (its, inl s') ->
-  Forall (fun it => (length s' <= length (it_rest it) <= length r)%nat) its.
+  Forall (within (length s') (length r)) its.
 Proof.
   induction f as [|f IH]; intros ln r its s' Hf H; [lia|]. simpl in H.
   destruct (num_slot (skip_blank r)) as [[w s2n] s3] eqn:EN.
   destruct (str_slot (skip_blank r)) as [[v|] s2] eqn:ES; [|discriminate].
-  pose proof (num_within_str _ _ _ _ _ _ EN ES) as Hw.
+  pose proof (num_within_str _ _ _ _ _ _ EN ES) as Hw. pose proof (num_slot_after _ _ _ _ EN) as Haf.
   pose proof (sfx_length _ _ (num_slot_sfx _ _ _ _ EN)) as H3.
   pose proof (sfx_length _ _ (str_slot_sfx _ _ _ ES)) as H2.
   pose proof (sfx_length _ _ (skip_blank_sfx r)) as Hb.
   destruct s2 as [|c r'].
-  - inversion H; subst. constructor; [simpl; lia | constructor].
+  - inversion H; subst. constructor; [unfold within; simpl; lia | constructor].
   - destruct (c =? COMMA).
     + destruct (stmt_items f ln r') as [its0 e0] eqn:E0. inversion H; subst.
       pose proof (sfx_length _ _ (stmt_items_end_sfx _ _ _ _ _ E0)) as He.
-      simpl in *. constructor; [simpl; lia|].
+      simpl in *. constructor; [unfold within; simpl; lia|].
       assert (Hf' : (length r' < f)%nat) by lia.
-      specialize (IH ln r' its0 s' Hf' E0). revert IH. apply Forall_impl. intros a. lia.
-    + inversion H; subst. constructor; [simpl in *; lia | constructor].
+      specialize (IH ln r' its0 s' Hf' E0). revert IH. apply Forall_impl. unfold within. intros a. lia.
+    + inversion H; subst. constructor; [unfold within; simpl in *; lia | constructor].
 Qed.
 
 Lemma si_rest_bounds ln r its s' :
-  si ln r = (its, inl s') -> Forall (fun it => (length s' <= length (it_rest it) <= length r)%nat) its.
+  si ln r = (its, inl s') -> Forall (within (length s') (length r)) its.
 Proof. apply stmt_items_rest_bounds. lia. Qed.
 
 (* --- statements --- *)
@@ -1406,11 +1478,11 @@ Proof. reflexivity. Qed.
 
 Ltac lens := repeat first [rewrite app_length | progress cbn [length]].
 
-Definition in_body (lo hi : nat) (it : item) : Prop := (lo <= length (it_rest it) <= hi)%nat.
+Definition in_body (lo hi : nat) (it : item) : Prop := within lo hi it.
 
 Lemma in_body_weaken lo hi lo' hi' its :
   (lo' <= lo)%nat -> (hi <= hi')%nat -> Forall (in_body lo hi) its -> Forall (in_body lo' hi') its.
-Proof. intros H1 H2. apply Forall_impl. unfold in_body. intros a. lia. Qed.
+Proof. intros H1 H2. apply Forall_impl. unfold in_body, within. intros a. lia. Qed.
 
 (* the statements of one line (from the start of a statement), followed by the next line Tn *)
 Lemma body_items : forall sts n Tn more e,
@@ -1427,12 +1499,12 @@ Proof.
     + subst Tn. rewrite (ss_other n true ls tl 0 t Hok); [|right; reflexivity | left; reflexivity].
       rewrite <- look_at_sep by (left; reflexivity). rewrite <- ia_cont, Hia.
       exists []. simpl. repeat split; constructor.
-    + simpl in Hok. apply andb_true_iff in Hok as [Hok Hne]. apply andb_true_iff in Hok as [Hsp Hes].
+    + simpl in Hok. apply andb_true_iff in Hok as [Hsp Hes].
       simpl enc_stmt. rewrite <- app_assoc. simpl app. rewrite ss_data by exact Hsp. rewrite cont_data.
       subst Tn.
-      destruct (si_entries es n 0 t) as [its [H1 H2]]; [destruct es; [discriminate | discriminate] | exact Hes | left; reflexivity|].
+      destruct (si_entries es true n 0 t) as [its [H1 H2]]; [exact Hes | left; reflexivity | reflexivity|].
       rewrite H1, Hia. exists its. split; [reflexivity|]. split; [exact H2|].
-      apply si_rest_bounds in H1. revert H1. apply Forall_impl. unfold in_body. intros a.
+      apply si_rest_bounds in H1. revert H1. apply Forall_impl. unfold in_body, within. intros a.
       lens. lia.
   - (* a statement followed by ':' *)
     change (stmts_ok (st :: st2 :: sts)) with (stmt_ok false st && stmts_ok (st2 :: sts)) in Hok.
@@ -1447,15 +1519,15 @@ Proof.
       rewrite (ss_other n false ls tl 58 (J ++ Tn) Hst); [|left; destruct Htl; [assumption | discriminate] | right; reflexivity].
       rewrite Hfd58, HA. exists A2. split; [reflexivity|]. split; [exact HR|].
       revert HB. apply in_body_weaken; [lia|]. lens. lia.
-    + simpl in Hst. apply andb_true_iff in Hst as [Hst Hne]. apply andb_true_iff in Hst as [Hsp Hes].
+    + simpl in Hst. apply andb_true_iff in Hst as [Hsp Hes].
       simpl enc_stmt. rewrite <- app_assoc. simpl app. rewrite ss_data by exact Hsp. rewrite cont_data.
-      destruct (si_entries es n 58 (J ++ Tn)) as [its [H1 H2]]; [destruct es; discriminate | exact Hes | right; reflexivity|].
+      destruct (si_entries es false n 58 (J ++ Tn)) as [its [H1 H2]]; [exact Hes | right; reflexivity | discriminate|].
       rewrite H1.
       rewrite ia_cont, look_at_sep by (right; reflexivity). rewrite Hfd58, HA.
       exists (its ++ A2). split; [now rewrite app_assoc|]. split.
       * simpl flat_map. rewrite map_app. apply Forall2_app; assumption.
       * apply Forall_app. split.
-        -- apply si_rest_bounds in H1. revert H1. apply Forall_impl. unfold in_body. intros a.
+        -- apply si_rest_bounds in H1. revert H1. apply Forall_impl. unfold in_body, within. intros a.
            lens. lia.
         -- revert HB. apply in_body_weaken; [lia|]. lens. lia.
 Qed.
@@ -1511,8 +1583,7 @@ Qed.
 (* an entry lies inside the byte range of a line of the program *)
 Definition located (ls : list line) (trailer : list Z) (it : item) : Prop :=
   exists ls1 l ls2, ls = ls1 ++ l :: ls2 /\ it_line it = l_num l /\
-    (length (enc_prog ls2 trailer) <= length (it_rest it)
-     <= length (enc_body l ++ enc_prog ls2 trailer))%nat.
+    within (length (enc_prog ls2 trailer)) (length (enc_body l ++ enc_prog ls2 trailer)) it.
 
 Lemma located_cons l ls trailer it : located ls trailer it -> located (l :: ls) trailer it.
 Proof. intros [ls1 [l0 [ls2 [-> H]]]]. exists (l :: ls1), l0, ls2. auto. Qed.
@@ -1651,15 +1722,24 @@ Proof.
   rewrite enc_prog_app. unfold seek, zlen. rewrite Nat2Z.id, skipn_app, skipn_all, Nat.sub_diag. reflexivity.
 Qed.
 
-(* the error position of an entry lies in the entry's line *)
-Lemma located_line ls trailer it :
-  ascending (-1) ls = true -> located ls trailer it ->
-  get_line_number (table_of ls 0) (pos_of (enc_prog ls trailer) (it_rest it) - 1) = it_line it.
+(* the error positions of an entry lie in the entry's line *)
+Lemma mark_line ls1 l ls2 trailer (m : list Z) :
+  ascending (-1) (ls1 ++ l :: ls2) = true ->
+  (length (enc_prog ls2 trailer) <= length m <= length (enc_body l ++ enc_prog ls2 trailer))%nat ->
+  get_line_number (table_of (ls1 ++ l :: ls2) 0) (pos_of (enc_prog (ls1 ++ l :: ls2) trailer) m - 1) = l_num l.
 Proof.
-  intros Hasc [ls1 [l [ls2 [-> [Hl Hb]]]]]. rewrite Hl, get_line_number_fold.
+  intros Hasc Hb. rewrite get_line_number_fold.
   apply gln_main; [exact Hasc|].
   unfold pos_of, zlen. rewrite enc_prog_app, enc_prog_cons, !app_length. rewrite app_length in Hb.
-  unfold enc_line. unfold enc_line in Hb. cbn [length] in *. lia.
+  unfold enc_line. cbn [length] in *. lia.
+Qed.
+
+Lemma located_line ls trailer it :
+  ascending (-1) ls = true -> located ls trailer it ->
+  get_line_number (table_of ls 0) (pos_of (enc_prog ls trailer) (it_rest it) - 1) = it_line it /\
+  get_line_number (table_of ls 0) (pos_of (enc_prog ls trailer) (it_after it) - 1) = it_line it.
+Proof.
+  intros Hasc [ls1 [l [ls2 [-> [Hl [Hb1 Hb2]]]]]]. rewrite Hl. split; apply mark_line; assumption.
 Qed.
 
 (* ================================================================================================ *)
@@ -1695,6 +1775,123 @@ Proof.
   - simpl in H. simpl. apply IH. exact H.
 Qed.
 
+(* a READ statement whose variable number |ts|+1 fails: the variables before it keep their values, the data pointer
+   stands behind the last entry that was read, the remaining variables are not touched (any oracles) *)
+Lemma read_vars_fail_mid numok setvar p cur : forall ts dp os dp' tgt rest,
+  read_vars numok setvar p cur dp ts = (os, dp') ->
+  Forall (fun o => outcome_value o <> None) os ->
+  outcome_value (read_one numok setvar p cur dp' tgt) = None ->
+  read_vars numok setvar p cur dp (ts ++ tgt :: rest) = (os ++ [read_one numok setvar p cur dp' tgt], dp').
+Proof.
+  induction ts as [|t ts IH]; intros dp os dp' tgt rest H1 HD HF.
+  - simpl in H1. inversion H1; subst. simpl.
+    destruct (read_one numok setvar p cur dp' tgt); try reflexivity. discriminate.
+  - simpl in H1. simpl app. cbn [read_vars].
+    destruct (read_one numok setvar p cur dp t) as [v d1 | e1 q1 p1 | x1 |] eqn:E1.
+    + destruct (read_vars numok setvar p cur d1 ts) as [os1 d2] eqn:E2. inversion H1; subst.
+      inversion HD; subst. rewrite (IH d1 os1 dp' tgt rest E2 H3 HF). reflexivity.
+    + inversion H1; subst. inversion HD; subst. simpl in H2. congruence.
+    + inversion H1; subst. inversion HD; subst. simpl in H2. congruence.
+    + inversion H1; subst. inversion HD; subst. simpl in H2. congruence.
+Qed.
+
+Lemma values_all_done os (L : list (Z * item)) :
+  map outcome_value os = map (fun ti => Some (value_for (fst ti) (snd ti))) L ->
+  Forall (fun o => outcome_value o <> None) os.
+Proof.
+  revert L. induction os as [|o os IH]; intros L H; [constructor|].
+  destruct L as [|x L]; [discriminate|]. simpl in H. inversion H. constructor; [congruence | eapply IH; eassumption].
+Qed.
+
+(* direct mode *)
+Lemma direct_value run o : outcome_value (direct run o) = outcome_value o.
+Proof. destruct run; [reflexivity|]. destruct o; reflexivity. Qed.
+
+Lemma direct_fail_pos o e q part : direct false o = Fail e q part -> q = -1.
+Proof. destruct o; simpl; intros H; inversion H; reflexivity. Qed.
+
+(* --- Program.line_numbers is a dictionary: only its content matters --- *)
+From Coq Require Import Permutation.
+
+Lemma gln_step_comm q a e1 e2 : gln_step q (gln_step q a e1) e2 = gln_step q (gln_step q a e2) e1.
+Proof.
+  unfold gln_step. destruct e1 as [n1 p1], e2 as [n2 p2]. simpl.
+  destruct ((p1 <=? q) && (a <? n1)) eqn:B1; destruct ((p2 <=? q) && (a <? n2)) eqn:B2; simpl;
+    rewrite ?B1, ?B2;
+    repeat (match goal with |- context [if ?b then _ else _] => destruct b eqn:? end); try reflexivity; lia.
+Qed.
+
+Lemma gln_perm q : forall t1 t2, Permutation t1 t2 -> forall a,
+  fold_left (gln_step q) t1 a = fold_left (gln_step q) t2 a.
+Proof.
+  induction 1 as [| x l l' Hp IH | x y l | l l' l'' H1 IH1 H2 IH2]; intros a; simpl.
+  - reflexivity.
+  - apply IH.
+  - now rewrite gln_step_comm.
+  - now rewrite IH1, IH2.
+Qed.
+
+Lemma get_line_number_perm t1 t2 q : Permutation t1 t2 -> get_line_number t1 q = get_line_number t2 q.
+Proof. intros H. rewrite !get_line_number_fold. now apply gln_perm. Qed.
+
+Lemma assocz_Some_In k v t : assocz k t = Some v -> In (k, v) t.
+Proof.
+  induction t as [|[k0 v0] t IH]; simpl; [discriminate|].
+  destruct (k =? k0) eqn:E; intros H.
+  - apply Z.eqb_eq in E. inversion H; subst. now left.
+  - right. auto.
+Qed.
+
+Lemma assocz_In k v t : NoDup (map fst t) -> In (k, v) t -> assocz k t = Some v.
+Proof.
+  induction t as [|[k0 v0] t IH]; simpl; intros Hn Hi; [contradiction|].
+  inversion Hn; subst. destruct Hi as [Hi | Hi].
+  - inversion Hi; subst. now rewrite Z.eqb_refl.
+  - destruct (k =? k0) eqn:E.
+    + apply Z.eqb_eq in E. subst. exfalso. apply H1. apply (in_map fst) in Hi. exact Hi.
+    + auto.
+Qed.
+
+Lemma assocz_None k t : assocz k t = None -> forall v, ~ In (k, v) t.
+Proof.
+  induction t as [|[k0 v0] t IH]; simpl; intros H v Hi; [contradiction|].
+  destruct (k =? k0) eqn:E; [discriminate|]. destruct Hi as [Hi | Hi].
+  - inversion Hi; subst. rewrite Z.eqb_refl in E. discriminate.
+  - eapply IH; eassumption.
+Qed.
+
+Lemma assocz_perm k t1 t2 : Permutation t1 t2 -> NoDup (map fst t2) -> assocz k t1 = assocz k t2.
+Proof.
+  intros Hp Hn.
+  assert (Hn1 : NoDup (map fst t1)).
+  { eapply Permutation_NoDup; [|exact Hn]. apply Permutation_map. now apply Permutation_sym. }
+  destruct (assocz k t2) as [v|] eqn:E2.
+  - apply assocz_In; [exact Hn1|]. apply assocz_Some_In in E2. eapply Permutation_in; [apply Permutation_sym|]; eassumption.
+  - destruct (assocz k t1) as [v|] eqn:E1; [|reflexivity]. exfalso.
+    apply assocz_Some_In in E1. eapply (assocz_None _ _ E2 v). eapply Permutation_in; eassumption.
+Qed.
+
+Lemma table_keys : forall ls start pre,
+  ascending pre ls = true -> Forall (fun l => l_num l < 65536) ls -> pre < 65536 ->
+  NoDup (map fst (table_of ls start)) /\ Forall (fun k => pre < k) (map fst (table_of ls start)).
+Proof.
+  induction ls as [|l ls IH]; intros start pre Ha Hf Hp; simpl.
+  - split; [constructor; [simpl; tauto | constructor] | constructor; [exact Hp | constructor]].
+  - simpl in Ha. apply andb_true_iff in Ha as [H1 H2]. inversion Hf; subst.
+    destruct (IH (start + zlen (enc_line l)) (l_num l) H2 H4 H3) as [Hn Hk]. split.
+    + constructor; [|exact Hn]. intros Hin. rewrite Forall_forall in Hk. specialize (Hk _ Hin). lia.
+    + constructor; [lia|]. revert Hk. apply Forall_impl. intros a. lia.
+Qed.
+
+Lemma line_ok_num l : line_ok l = true -> l_num l < 65536.
+Proof. intros H. apply line_ok_parts in H as [_ [_ [H1 H2]]]. unfold l_num. lia. Qed.
+
+Lemma table_nodup ls : forallb line_ok ls = true -> ascending (-1) ls = true -> NoDup (map fst (table_of ls 0)).
+Proof.
+  intros Hok Ha. apply (table_keys ls 0 (-1) Ha); [|lia].
+  rewrite Forall_forall. rewrite forallb_forall in Hok. intros l Hl. apply line_ok_num. auto.
+Qed.
+
 Section Statements.
   Variable numok : list Z -> res unit.
   Variable setvar : Z -> val -> res unit.
@@ -1719,13 +1916,14 @@ Section Statements.
     exists os, dp', ln'. auto.
   Qed.
 
-  (* after the entries before it have been read, a numeric READ of an entry that is not numeric *)
-  Lemma syntax_error_after p cur dp ln its e ts tgt it :
+  (* after the entries before it have been read, a numeric READ of an entry that is not numeric; the variables
+     behind it (rest) are not touched *)
+  Lemma syntax_error_after p cur dp ln its e ts tgt rest it :
     data_ahead p dp ln = (its, e) -> (length ts <= length its)%nat ->
     forallb (fun ti => readable (fst ti) (snd ti)) (combine ts its) = true ->
     nth_error its (length ts) = Some it -> readable tgt it = false ->
     exists os dp' ln',
-      read_vars numok setvar p cur dp (ts ++ [tgt]) =
+      read_vars numok setvar p cur dp (ts ++ tgt :: rest) =
         (os ++ [Fail data_STX (pos_of p (it_rest it) - 1) (Some (VNum (it_word it)))], dp') /\
       map outcome_value os = map (fun ti => Some (value_for (fst ti) (snd ti))) (combine ts its) /\
       data_ahead p dp' ln' = (skipn (length ts) its, e).
@@ -1734,10 +1932,104 @@ Section Statements.
     destruct (sequence_from p cur dp ln its e ts HI HL HR) as [os [dp' [ln' [H1 [H2 H3]]]]].
     exists os, dp', ln'. split; [|split; [exact H2 | exact H3]].
     rewrite (nth_error_skipn _ _ _ Hn) in H3.
-    eapply read_vars_snoc_fail; [exact H1 | |].
-    - clear -H2. revert H2. generalize (combine ts its). intros L. revert L.
-      induction os as [|o os IH]; intros L H; [constructor|].
-      destruct L as [|x L]; [discriminate|]. simpl in H. inversion H. constructor; [congruence | eapply IH; eassumption].
-    - exact (read_step_syntax numok setvar numok_ok setvar_ok p cur dp' ln' it _ e tgt H3 Hr).
+    pose proof (read_step_syntax numok setvar numok_ok setvar_ok p cur dp' ln' it _ e tgt H3 Hr) as HF.
+    rewrite <- HF. apply read_vars_fail_mid; [exact H1 | eapply values_all_done; exact H2 | now rewrite HF].
+  Qed.
+
+  (* a READ statement with more variables than entries are left *)
+  Lemma out_of_data_after p cur dp ln its ts tgt rest :
+    data_ahead p dp ln = (its, EndOfData) -> length ts = length its ->
+    forallb (fun ti => readable (fst ti) (snd ti)) (combine ts its) = true ->
+    exists os dp' ln',
+      read_vars numok setvar p cur dp (ts ++ tgt :: rest) = (os ++ [Fail data_OUT_OF_DATA (cur - 1) None], dp') /\
+      map outcome_value os = map (fun ti => Some (value_for (fst ti) (snd ti))) (combine ts its) /\
+      data_ahead p dp' ln' = ([], EndOfData).
+  Proof.
+    intros HI HL HR.
+    destruct (sequence_from p cur dp ln its EndOfData ts HI ltac:(lia) HR) as [os [dp' [ln' [H1 [H2 H3]]]]].
+    rewrite HL, skipn_all in H3.
+    exists os, dp', ln'. split; [|split; [exact H2 | exact H3]].
+    pose proof (read_exhausted numok setvar p cur dp' ln' tgt H3) as HF.
+    rewrite <- HF. apply read_vars_fail_mid; [exact H1 | eapply values_all_done; exact H2 | now rewrite HF].
   Qed.
 End Statements.
+
+(* the assembled statements of props/C22.v *)
+Lemma direct_mode_thm : forall numok setvar run p cur dp ts tbl,
+  let r := read_vars numok setvar p cur dp ts in
+  read_stmt numok setvar run false p cur dp ts = (map (direct run) (fst r), snd r) /\
+  map outcome_value (map (direct run) (fst r)) = map outcome_value (fst r) /\
+  (forall o e q part, In o (map (direct false) (fst r)) -> o = Fail e q part -> q = -1 /\ erl tbl q = 65535) /\
+  read_stmt numok setvar false true p cur dp ts = ([Fail 5 (-1) None], dp).
+Proof.
+  intros numok setvar run p cur dp ts tbl r. split; [|split; [|split]].
+  - unfold read_stmt, r. simpl. now destruct (read_vars numok setvar p cur dp ts).
+  - rewrite map_map. apply map_ext. intros o. apply direct_value.
+  - intros o e q part Hin Ho. apply in_map_iff in Hin as [o0 [Hd0 _]]. rewrite <- Hd0 in Ho.
+    apply direct_fail_pos in Ho. subst q. split; reflexivity.
+  - reflexivity.
+Qed.
+
+Lemma program_order_thm : forall ls trailer,
+  forallb line_ok ls = true -> (length trailer <= 2)%nat ->
+  exists its, data_items (enc_prog ls trailer) = (its, EndOfData) /\ Forall2 item_rel (prog_entries ls) its.
+Proof.
+  intros ls trailer H1 H2. destruct (prog_items ls trailer (-1) H1 H2) as [its [Ha [Hb _]]]. eauto.
+Qed.
+
+Lemma restore_n_thm : forall ls1 l ls2 trailer tbl,
+  forallb line_ok (ls1 ++ l :: ls2) = true -> (length trailer <= 2)%nat -> ascending (-1) (ls1 ++ l :: ls2) = true ->
+  Permutation tbl (table_of (ls1 ++ l :: ls2) 0) ->
+  let p := enc_prog (ls1 ++ l :: ls2) trailer in
+  exists dp A B,
+    restore tbl (Some (l_num l)) = Ok dp /\
+    fst (data_items p) = A ++ B /\
+    (forall ln, data_ahead p dp ln = (B, EndOfData)) /\
+    (forall ln, data_ahead p dp ln = data_items (enc_prog (l :: ls2) trailer)) /\
+    Forall2 item_rel (prog_entries ls1) A /\ Forall2 item_rel (prog_entries (l :: ls2)) B.
+Proof.
+  intros ls1 l ls2 trailer tbl Hok Ht Hasc Hperm p.
+  destruct (prog_items_split ls1 (l :: ls2) trailer (-1) Hok Ht) as [A [B [H1 [H2 [H3 H4]]]]].
+  assert (Hok2 : forallb line_ok (l :: ls2) = true).
+  { rewrite forallb_app in Hok. now apply andb_true_iff in Hok as [_ ?]. }
+  assert (Hahead : forall ln, data_ahead p (zlen (flat_map enc_line ls1)) ln = (B, EndOfData)).
+  { intros ln. change (ia ln (seek (enc_prog (ls1 ++ l :: ls2) trailer) (zlen (flat_map enc_line ls1))) = (B, EndOfData)).
+    rewrite seek_line. rewrite (ia_prog_ln ln (-1)); [exact H2 | exact Hok2 | exact Ht]. }
+  exists (zlen (flat_map enc_line ls1)), A, B. split.
+  - rewrite restore_some, (assocz_perm _ _ _ Hperm (table_nodup _ Hok Hasc)), (assocz_table ls1 l ls2 0 (-1) Hasc).
+    reflexivity.
+  - split; [unfold p; rewrite data_items_ia, H1; reflexivity|]. split; [exact Hahead|]. split; [|auto].
+    intros ln. rewrite Hahead, data_items_ia, H2. reflexivity.
+Qed.
+
+Lemma restore_undefined_thm : forall ls n tbl,
+  forallb line_ok ls = true -> ascending (-1) ls = true -> Permutation tbl (table_of ls 0) ->
+  (forall l, In l ls -> l_num l <> n) -> n <> 65536 ->
+  restore tbl (Some n) = Err data_UNDEFINED_LINE_NUMBER.
+Proof.
+  intros ls n tbl Hok Hasc Hperm H1 H2.
+  rewrite restore_some, (assocz_perm _ _ _ Hperm (table_nodup _ Hok Hasc)), assocz_table_none by assumption.
+  reflexivity.
+Qed.
+
+Lemma error_line_thm : forall ls trailer tbl k it,
+  forallb line_ok ls = true -> (length trailer <= 2)%nat -> ascending (-1) ls = true ->
+  Permutation tbl (table_of ls 0) ->
+  nth_error (fst (data_items (enc_prog ls trailer))) k = Some it ->
+  let p := enc_prog ls trailer in
+  erl tbl (pos_of p (it_rest it) - 1) = it_line it /\ erl tbl (pos_of p (it_after it) - 1) = it_line it.
+Proof.
+  intros ls trailer tbl k it Hok Ht Hasc Hperm Hn p.
+  destruct (prog_items ls trailer (-1) Hok Ht) as [its [Ha [_ Hloc]]].
+  rewrite data_items_ia, Ha in Hn. simpl in Hn. apply nth_error_In in Hn.
+  rewrite Forall_forall in Hloc. specialize (Hloc _ Hn).
+  destruct (located_line ls trailer it Hasc Hloc) as [L1 L2].
+  destruct Hloc as [ls1 [l [ls2 [-> [Hl [[Hb1 Hb1'] [Hb2 Hb2']]]]]]].
+  assert (Hpos : forall m : list Z, (length m <= length (enc_body l ++ enc_prog ls2 trailer))%nat ->
+                 4 <= pos_of (enc_prog (ls1 ++ l :: ls2) trailer) m - 1).
+  { intros m Hm. unfold pos_of, zlen. rewrite enc_prog_app, enc_prog_cons, !app_length.
+    rewrite app_length in Hm. unfold enc_line. cbn [length]. lia. }
+  unfold erl, p. rewrite !(get_line_number_perm _ _ _ Hperm), L1, L2.
+  pose proof (Hpos _ Hb1'). pose proof (Hpos _ Hb2').
+  repeat match goal with |- context [?x =? ?y] => replace (x =? y) with false by lia end. auto.
+Qed.
